@@ -14,7 +14,7 @@
 ODD_PARTS = ['*', '**', 'a*', '*a', '.', 'a.b', '.*', 't.*', '1', '007', '1a', 'select', 'from', 'x y', ' ', '`', 'a`b', "'", '"', '%',
              '?', '@v', 'latest', 'null', 'true', '-', 'a-b', 'count', 'A', '(', 'a,b', '*/', '--', '#']
 # positions of the odd part {p} inside a name
-NAME_FORMS = ['{p}', 't.{p}', '{p}.a', 'a.b.{p}', 'a.{p}.c', '{p}.{p}', '{p}.b.c', 't.{p}.*']
+NAME_FORMS = ['{p}', 't.{p}', '{p}.a', 'a.b.{p}', 'a.{p}.c', '{p}.{p}', '{p}.b.c', 't.{p}.*', 'a.b.c.{p}']
 # places of a statement where a (multi-part) name {n} is read
 NAME_PLACES = ['select {n} from t', 'select a from t where {n} > 1', 'select count({n}) from t group by {n}', 'select a from t order by {n} desc',
                'select {n} as c, -{n}, ({n}), {n} + 1 from t', 'select * from {n}', 'select * from t join {n} on 1 = 1',
